@@ -165,6 +165,7 @@ def _run_chunk(args):
     out = []
     for i in idxs:
         rng = gen.rng_for(seed, "oracle", name, i)
+        _t0 = __import__("time").time()
         try:
             from ..impl import Diverged, guarded
 
@@ -191,6 +192,8 @@ def _run_chunk(args):
                                    "clause": "oracle-could-not-evaluate", "observed": tb[-1500:],
                                    "expected": "values of the documented types and shapes", "signature": f"{name}:oracle-could-not-evaluate"}}
         r["case"] = i
+        if os.environ.get("HX_SLOW") and __import__("time").time() - _t0 > float(os.environ["HX_SLOW"]):
+            print(f"SLOW oracle={name} case={i} {__import__('time').time() - _t0:.1f}s meta={r.get('meta')}", file=__import__("sys").stderr)
         out.append(r)
     return out
 
